@@ -1201,8 +1201,21 @@ fn closure_marker(k: u64) -> syn::Stmt {
 enum IterShape {
     /// `X.iter()` / `&X` : borrow X, bind `&X[i]`
     Borrow(syn::Expr, bool),
+    /// `X.iter_mut()` (R2m): X is a place (`v`, `self.v`, a `&mut Vec` binding): index it in place, bind `&mut X[i]`
+    BorrowMut(syn::Expr),
+    /// `E.iter_mut()` where E is an expression yielding a `&mut Vec`: bound once, then indexed in place
+    BorrowMutVal(syn::Expr),
     /// other expression: evaluate once, bind by mode
     Other(syn::Expr),
+}
+
+fn is_place(e: &syn::Expr) -> bool {
+    match e {
+        syn::Expr::Path(_) => true,
+        syn::Expr::Field(f) => is_place(&f.base),
+        syn::Expr::Paren(p) => is_place(&p.expr),
+        _ => false,
+    }
 }
 
 fn iter_shape(e: &syn::Expr) -> IterShape {
@@ -1217,6 +1230,12 @@ fn iter_shape(e: &syn::Expr) -> IterShape {
         }
         if mc.method == "iter" && mc.args.is_empty() {
             return IterShape::Borrow((*mc.receiver).clone(), false);
+        }
+        if mc.method == "iter_mut" && mc.args.is_empty() && is_place(&mc.receiver) {
+            return IterShape::BorrowMut((*mc.receiver).clone());
+        }
+        if mc.method == "iter_mut" && mc.args.is_empty() {
+            return IterShape::BorrowMutVal((*mc.receiver).clone());
         }
     }
     if let syn::Expr::Reference(r) = e {
@@ -1365,14 +1384,21 @@ impl<'a> LoopPass<'a> {
         let s_id = syn::Ident::new(&format!("__s{}", k), Span::call_site());
         let i_id = syn::Ident::new(&format!("__i{}", k), Span::call_site());
         let marker = loop_marker(k);
+        let mut mut_elems = false;
         let (seq_init, by_ref): (TokenStream, bool) = match &src {
             ChainSrc::Iter(x) => (quote!(&#x), mode != "val"),
+            ChainSrc::IterMut(x) if !matches!(consumer, Consumer::Find(_)) => {
+                // R3m (general): the elements are visited in place, one `&mut X[i]` at a time.  mode "mutval": X already is a
+                // `&mut Vec` value (bound once); otherwise X is a place and is borrowed mutably for the loop
+                mut_elems = true;
+                if mode == "mutval" { (quote!(#x), false) } else { (quote!(&mut #x), false) }
+            }
             ChainSrc::IterMut(x) => {
                 // R3m: X.iter_mut()[.enumerate()].find(pred): the search loop reads X through a shared borrow and remembers the
                 // index; the result re-borrows the found element mutably: Some((ix, &mut X[ix])) / Some(&mut X[ix])
                 let pred = match &consumer {
                     Consumer::Find(c) => c.clone(),
-                    _ => return Err("unsupported construct: iter_mut() consumed by something else than find".into()),
+                    _ => unreachable!(),
                 };
                 let enumerated = match adapters.as_slice() {
                     [] => false,
@@ -1414,7 +1440,10 @@ impl<'a> LoopPass<'a> {
         };
         let mut body: Vec<TokenStream> = Vec::new();
         let mut cur = syn::Ident::new(&format!("__x{}_0", k), Span::call_site());
-        if by_ref {
+        if mut_elems {
+            bump(self.counts, "R3m.iter_mut_in_place");
+            body.push(quote!(let #cur = &mut #s_id[#i_id];));
+        } else if by_ref {
             body.push(quote!(let #cur = &#s_id[#i_id];));
         } else {
             body.push(quote!(let #cur = #s_id[#i_id];));
@@ -1733,7 +1762,33 @@ impl<'a> LoopPass<'a> {
         let marker = loop_marker(k);
         let stmts = &body.stmts;
         let shape = iter_shape(&fl.expr);
+        if let IterShape::BorrowMut(x) = &shape {
+            bump(self.counts, "R2m.for_iter_mut_to_while");
+            return syn::parse_quote!({
+                let mut #i_id: usize = 0;
+                while #i_id < #x.len() {
+                    #marker
+                    let #pat = &mut #x[#i_id];
+                    #i_id = #i_id + 1;
+                    #(#stmts)*
+                }
+            });
+        }
+        if let IterShape::BorrowMutVal(x) = &shape {
+            bump(self.counts, "R2m.for_iter_mut_to_while");
+            return syn::parse_quote!({
+                let #s_id = #x;
+                let mut #i_id: usize = 0;
+                while #i_id < #s_id.len() {
+                    #marker
+                    let #pat = &mut #s_id[#i_id];
+                    #i_id = #i_id + 1;
+                    #(#stmts)*
+                }
+            });
+        }
         let (seq_init, rev, by_ref): (TokenStream, bool, bool) = match shape {
+            IterShape::BorrowMut(_) | IterShape::BorrowMutVal(_) => unreachable!(),
             IterShape::Borrow(x, rev) => (quote!(&#x), rev, mode != "val"),
             IterShape::Other(x) => (quote!(#x), false, mode != "val"),
         };
